@@ -530,7 +530,10 @@ ONLY = {"comm.py": {"CommHandler": [
     # the description phase of the handshake (the frame queues and the link are scripted stubs)
     "_devinfo_get", "_drop_all", "_drop_all_frames", "_get_stream_frame",
     # connect / disconnect (the receive thread is a recording stub)
-    "_start", "_stop", "connect", "disconnect"]},
+    "_start", "_stop", "connect", "disconnect",
+    # pl14: the receive thread body (one call = one reassembly step + routing; the two queues are the
+    # ScriptQueue stub) and the stream path (next stream frame -> Parser.frame_stream_decode)
+    "_recv_thread", "stream_data"]},
     "nxscope.py": {"NxscopeHandler": [
         "_stream_start", "_stream_stop", "_reset_stats", "dev", "connect", "disconnect", "dev_channel_get",
         "stream_start", "stream_stop", "channels_default_cfg", "ch_enable", "ch_disable", "ch_disable_all",
